@@ -134,6 +134,15 @@ def run(ck, ctx):
                   f"[{g.show(c.node, 1)} at {c.node.where()}]", False, c.node, func,
                   f"{c.what}: {lc.show(c.a)} vs {lc.show(c.b)}",
                   construct=f"{func}: {c.what}")
+        scope = ("Taus.tau_energy", "grid_cdf_sampler.<locals>.sample", "vec_1d_interp", "left_shift",
+                 "right_shift")
+        for node, c in lc.positional:
+            fn = node.fn.qualname if node.fn is not None else "?"
+            if fn in scope:
+                ck.ob("R04.1", f"no position-dependent use of a per-event array in the sampler [{g.show(node, 2)}]",
+                      False, node, fn, f"slice / integer index along the event axis of {lc.show(c)}: the value an "
+                      "event gets would depend on its position in the batch or buffer chunk",
+                      construct=f"{fn}: positional index on a per-event array")
         n_sites = 0
         stores = {k: v[0] for k, v in kinds.items() if k in ("valid", "low")}
         if len(stores) < 2:
